@@ -73,8 +73,9 @@ fn variants(p: &Node, rng: &mut Rng, all_sites: bool) -> Vec<Variant> {
     push("free-spacing", format!("(?x)\n{}\n", join_with(&toks, &mut |_| "\n")), &base);
     push("free-spacing", format!("(?x) {} # trailing", join_with(&toks, &mut |_| " # c\n ")), &base);
     push("free-spacing", format!("(?x) {} # 名 trailing 😀", join_with(&toks, &mut |_| " # 注释 é\n ")), &base);
+    push("free-spacing", format!("(?x) {} # trailing\\", join_with(&toks, &mut |_| " # C:\\logs\\\n ")), &base);
     for _ in 0..2 {
-        let seps = [" ", "", "\n", "\t ", " # x ( [ \\ \n", "\r\n", " #名é😀 (\n", "#é\n"];
+        let seps = [" ", "", "\n", "\t ", " # x ( [ \\ \n", "\r\n", " #名é😀 (\n", "#é\n", " # dir\\\n", "#\\\n"];
         let mut r2 = rng.fork();
         push("free-spacing", format!("(?x){}", join_with(&toks, &mut |_| seps[r2.below(seps.len() as u64) as usize])), &base);
     }
@@ -128,6 +129,10 @@ fn variants(p: &Node, rng: &mut Rng, all_sites: bool) -> Vec<Variant> {
     push("escape-letters", p.print_with(&Style { lit_escapes: true, class_h: true, ..d.clone() }), &base);
     if !has_poss {
         push("swap-greed", p.print_with(&Style { swap_greed_groups: true, ..d.clone() }), &base);
+    }
+    // a flag-less scoped group around a run of adjacent elements (behaviour only: the tree nests)
+    for w in gen::noncap_wraps(p, if all_sites { 12 } else { 4 }) {
+        push("noncap-wrap", w.print(), &base);
     }
     out
 }
@@ -316,6 +321,7 @@ pub fn run(ctx: &Ctx) -> Outcome {
             acc.evals += 1;
             acc.count(&format!("family:{}", v.family));
             match tree_of(&v.pattern) {
+                Got::Val(_) if v.family == "noncap-wrap" => {}
                 Got::Val(t) => {
                     if t != base_tree {
                         let mut viol = Violation::new("C19", "tree-equality", &v.pattern, "", 0, "Expr::parse_tree", format!("the tree of {:?}: {}", base, base_tree.0), t.0);
@@ -342,7 +348,7 @@ pub fn run(ctx: &Ctx) -> Outcome {
             }
             // the same pair inside a case-insensitive scope (flags are parser state that every
             // spelling of a literal has to honour)
-            if !v.pattern.starts_with("(?x)") {
+            if !v.pattern.starts_with("(?x)") && v.family != "noncap-wrap" {
                 let mut differs = false;
                 for fl in ["i", "U", "s"] {
                     // (the swap-greed family spells X? as (?U:X??): it is itself relative to U)
@@ -425,7 +431,7 @@ pub fn run(ctx: &Ctx) -> Outcome {
     out.assumptions = vec!["named spellings of forward references do not exist (a named reference must follow its group); such variants are skipped and counted".into()];
     let nfam = fams.len();
     out.extra = json!({"families": fams});
-    out.require(nfam >= 15, "not all respelling families were exercised");
+    out.require(nfam >= 16, "not all respelling families were exercised");
     out
 }
 
